@@ -166,10 +166,34 @@ theorem addMetric_ok (s : State) (name : Name) (v : List Val) (hv : v.length = s
     addMetric s name v = ({ s with metrics := sset s.metrics name v }, .ok .done) := by
   simp [addMetric, hv]
 
-theorem computeMetric_ok (s : State) (h : Inv s) (name : Name) (vals : List Rat) (f : List Rat → Rat) (mode : Mode) :
+/-- `compute_cycle_metric` either raises and leaves the state alone, or stores some vector through
+    `add_cycle_metric`: whatever `add_cycle_metric` preserves, it preserves. -/
+theorem computeMetric_preserves (P : State → Prop) (s : State) (name : Name) (vals : List Rat) (f : List Rat → Rat)
+    (mode : Mode) (hs : P s) (hadd : ∀ v, P (addMetric s name v).1) : P (computeMetric s name vals f mode).1 := by
+  unfold computeMetric
+  split
+  · exact hs
+  · exact hadd _
+
+/-- With one value per sample `compute_cycle_metric` succeeds and stores the statistic. -/
+theorem computeMetric_ok (s : State) (h : Inv s) (name : Name) (vals : List Rat) (f : List Rat → Rat) (mode : Mode)
+    (hv : vals.length = s.cv.length) :
     computeMetric s name vals f mode =
-      ({ s with metrics := sset s.metrics name (cycleStat s.cache mode f s.thr s.phase s.cv vals) }, .ok .done) :=
-  addMetric_ok _ _ _ (cycleStat_length _ _ _ _ _ h.cv.1 _)
+      ({ s with metrics := sset s.metrics name (cycleStatV s.cache mode f s.thr s.phase s.cv vals) }, .ok .done) := by
+  unfold computeMetric
+  rw [cycleStat_eq_ok _ _ _ _ _ _ _ hv]
+  exact addMetric_ok _ _ _ (cycleStat_length _ _ _ _ _ h.cv.1 _)
+
+/-- With the cache on `compute_cycle_metric` succeeds whatever the length of the value vector. -/
+theorem computeMetric_cache_ok (s : State) (h : Inv s) (hc : s.cache = true) (name : Name) (vals : List Rat)
+    (f : List Rat → Rat) (mode : Mode) :
+    computeMetric s name vals f mode =
+      ({ s with metrics := sset s.metrics name (cycleStatV true mode f s.thr s.phase s.cv vals) }, .ok .done) := by
+  unfold computeMetric
+  have e : cycleStat s.cache mode f s.thr s.phase s.cv vals = .ok (cycleStatV true mode f s.thr s.phase s.cv vals) := by
+    rw [hc]; exact cycleStat_cache_ok _ _ _ _ _ _
+  rw [e]
+  exact addMetric_ok _ _ _ (cycleStat_length _ _ _ _ _ h.cv.1 _)
 
 theorem seqOps_preserves (P : State → Prop) (ops : List (State → State × Except Err Out))
     (hops : ∀ o ∈ ops, ∀ s, P s → P (o s).1) (s : State) (h : P s) : P (seqOps s ops).1 := by
@@ -242,7 +266,8 @@ theorem computeTimings_inv (s : State) (h : Inv s) : Inv (computeTimings s).1 :=
   apply seqOps_preserves Inv _ _ s h
   intro o ho s' hs'
   simp only [List.mem_cons, List.not_mem_nil, or_false] at ho
-  rcases ho with rfl | rfl | rfl <;> exact addMetric_inv _ _ _ hs'
+  rcases ho with rfl | rfl | rfl <;>
+    exact computeMetric_preserves Inv _ _ _ _ _ hs' (fun v => addMetric_inv _ _ _ hs')
 
 theorem computeChainTimings_inv (s : State) (h : Inv s) : Inv (computeChainTimings s).1 := by
   unfold computeChainTimings
@@ -258,7 +283,7 @@ theorem computeChainTimings_inv (s : State) (h : Inv s) : Inv (computeChainTimin
 
 theorem step_inv (F : List Char → Option Rat) (s : State) (op : Op) (h : Inv s) : Inv (step F s op).1 := by
   cases op with
-  | computeMetric name vals f mode => exact addMetric_inv _ _ _ h
+  | computeMetric name vals f mode => exact computeMetric_preserves Inv _ _ _ _ _ h (fun v => addMetric_inv _ _ _ h)
   | addMetric name vals => exact addMetric_inv _ _ _ h
   | computeTimings => exact computeTimings_inv s h
   | pickSubset conds => exact pickSubset_inv F s conds h
